@@ -286,6 +286,32 @@ where
   }
 }
 
+/// Largest number of elements reserved up front for a length announced in a
+/// CBOR head. The announced length is untrusted input: the collections grow as
+/// data actually arrives.
+const MAX_PREALLOC: usize = 4096;
+
+/// Read exactly `n` bytes, growing the buffer as the data arrives instead of
+/// allocating the announced length up front.
+fn read_len<R: ciborium_io::Read>(decoder: &mut Decoder<R>, n: usize) -> Result<Vec<u8>, DecodeError>
+where
+  ciborium_ll::Error<R::Error>: Into<DecodeError>,
+{
+  let mut buf = Vec::with_capacity(n.min(MAX_PREALLOC));
+  let mut remaining = n;
+  while remaining > 0 {
+    let take = remaining.min(MAX_PREALLOC);
+    let start = buf.len();
+    buf.resize(start + take, 0u8);
+    decoder.read_exact(&mut buf[start..]).map_err(|e| {
+      let io_err: ciborium_ll::Error<R::Error> = ciborium_ll::Error::Io(e);
+      io_err.into()
+    })?;
+    remaining -= take;
+  }
+  Ok(buf)
+}
+
 fn read_bytes<R: ciborium_io::Read>(
   decoder: &mut Decoder<R>,
   len: Option<usize>,
@@ -294,14 +320,7 @@ where
   ciborium_ll::Error<R::Error>: Into<DecodeError>,
 {
   match len {
-    Some(n) => {
-      let mut buf = vec![0u8; n];
-      decoder.read_exact(&mut buf).map_err(|e| {
-        let io_err: ciborium_ll::Error<R::Error> = ciborium_ll::Error::Io(e);
-        io_err.into()
-      })?;
-      Ok(buf)
-    }
+    Some(n) => read_len(decoder, n),
     None => {
       // Indefinite-length bytes: read segments until break
       let mut result = Vec::new();
@@ -331,11 +350,7 @@ where
 {
   match len {
     Some(n) => {
-      let mut buf = vec![0u8; n];
-      decoder.read_exact(&mut buf).map_err(|e| {
-        let io_err: ciborium_ll::Error<R::Error> = ciborium_ll::Error::Io(e);
-        io_err.into()
-      })?;
+      let buf = read_len(decoder, n)?;
       String::from_utf8(buf).map_err(|_| DecodeError::Syntax(decoder.offset()))
     }
     None => {
@@ -367,7 +382,7 @@ where
 {
   match len {
     Some(n) => {
-      let mut items = Vec::with_capacity(n);
+      let mut items = Vec::with_capacity(n.min(MAX_PREALLOC));
       for _ in 0..n {
         items.push(decode_value(decoder)?);
       }
@@ -399,7 +414,7 @@ where
 {
   match len {
     Some(n) => {
-      let mut entries = Vec::with_capacity(n);
+      let mut entries = Vec::with_capacity(n.min(MAX_PREALLOC));
       for _ in 0..n {
         let key = decode_value(decoder)?;
         let val = decode_value(decoder)?;
